@@ -178,6 +178,8 @@ def gen_case(info, rng, cid, vals=None, shapes=None, dst=None, br=None, c20=Fals
         line += ' post=' + post
     if prime is not None:
         line += ' prime=%d' % prime
+    if (info.res == '-' or info.name in OVF) and rng.random() < 0.4:
+        line += ' bover=1'       # the branch jumps over an unconditional jump (rewritten with the reversed branch)
     if (press is None and d in ('r', 'x') and shapes[0] == 'r' and info.res == 'i' and info.args[0] == 'i' and not (pre or post)
             and rng.random() < 0.05):
         press = rng.choice([14, 20, 28])
